@@ -364,6 +364,9 @@ func verifModelBinaryWrite(w io.Writer, order binary.ByteOrder, data any) error 
 
 //@ func mergeStoredAndRemap returns (storedIndexOffset, rv, err)
 //@ thin
+// stored documents are byte-copied only when every input has the first input's field list and this input has no
+// deletions (otherwise field ids inside the copied bytes would name other fields, or deleted documents would survive)
+//@ assert (*SegmentBase).copyStoredDocs#1 : fieldsSame && (dropsI == nil || sCard(bmSet(dropsI)) == 0) [C05]
 //@ uses rankZero, rankStep, rankFull
 //@ requires w != nil
 //@ ensures chanClosed(closeCh) && !old(chanClosed(closeCh)) ==> err == seg.ErrClosed [C18]
@@ -556,6 +559,7 @@ func verifModelBinaryWrite(w io.Writer, order binary.ByteOrder, data any) error 
 //@ func mergeAndPersistInvertedSection$2 returns (err)
 //@ thin
 //@ tags [C06,C08]
+//@ assert (*vellum.Builder).Insert#1 : $val == postingsOffset && postingsOffset > 0 [C06,C08,C09]
 //@ ensures err == nil ==> bmSet(newRoaring) == sEmpty() [C06,C08]
 //@ ensures err == nil ==> lastDocNum == 0 && lastFreq == 0 && lastNorm == 0 [C06,C08]
 //@ end
@@ -1207,6 +1211,10 @@ func lemmaUvLenRange(a []byte, o int) {}
 //@ loop 2 invariant fieldsSame ==> (forall si int :: 0 <= si && si < $k2 ==> old(sameFieldsAs0(segments, si))) [C05]
 //@ loop 2 invariant fieldsSame ==> (forall fi int :: {fields[fi]} 0 <= fi && fi < $k ==> len(fields) == len(segment0Fields) && fields[fi] == segment0Fields[fi]) [C05]
 //@ loop 2 invariant 0 <= $k && $k <= len(fields) && fields == segment.fieldsInv && segment0Fields == segments[0].fieldsInv && len(segments) > 0 && 0 <= $k2 && $k2 < len(segments) && segment == segments[$k2]
+// every field name of every input is collected: the scan of an input's field list is never cut short, and each name
+// it passes is entered into the set the merged field list is built from
+//@ loop 2 nobreak [C05]
+//@ loop 2 step haskey(fieldsExist, field) [C05]
 //@ loop 3 invariant len(rv) >= 1 && rv[0] == "_id" && fresh(rv) && base(rv) != nil
 //@ loop 3 invariant fieldsSame ==> (forall si int :: 0 <= si && si < len(segments) ==> old(sameFieldsAs0(segments, si))) [C05]
 //@ end
@@ -1378,6 +1386,8 @@ func lemmaUvLenRange(a []byte, o int) {}
 // the pass that sizes a hit's location block and the pass that writes it walk the same window of the term's location
 // list (numLocs entries from locOffset) and describe entry k by the same five numbers and array positions
 //@ assert totalUvarintBytes#1 : 0 <= $k && $k < freqNorm.numLocs && $a == uint64(locs[locOffset + $k].fieldID) && $b == locs[locOffset + $k].pos && $c == locs[locOffset + $k].start && $d == locs[locOffset + $k].end && int($e) == len(locs[locOffset + $k].arrayposs) && len($more) == len(locs[locOffset + $k].arrayposs) [C01,C09]
+// a term enters the dictionary only with the (non-zero) value writePostings returned for it
+//@ assert (*vellum.Builder).Insert#1 : $val == postingsOffset && postingsOffset > 0 [C01,C08,C09]
 // every field of the build gets its section address recorded in the same build
 //@ loop 1 step haskey(io.fieldAddrs, fieldID) && mapget(io.fieldAddrs, fieldID) == fieldStart [C01,C09,C10]
 // per posting of a term: the next freq/norm entry is consumed, and its numLocs location entries
@@ -1434,6 +1444,38 @@ func lemmaUvLenRange(a []byte, o int) {}
 //@ loop 1 invariant len(m.lowIdxs) == 0 <==> (forall i int :: {m.currKs[i]} 0 <= i && i < $k ==> !enumLive(m, i, skipEmptyKey)) [C06,C08,C13]
 //@ end
 
+// a step of the enumeration: while the current low key still has unvisited inputs, move to the next of them; otherwise
+// every input that stood at the low key - and only those - is advanced and re-read, and the low key is recomputed
+// (empty keys may be skipped from here on)
+//@ func (*enumerator).Next returns (err)
+//@ thin
+//@ tags [C06,C08,C13]
+//@ wf requires m != nil
+//@ assert vellum.Iterator.Next#1 : 0 <= vi && vi < len(m.itrs) ==> $this == m.itrs[vi] [C06,C08,C13]
+//@ assert vellum.Iterator.Current#1 : 0 <= vi && vi < len(m.itrs) ==> $this == m.itrs[vi] [C06,C08,C13]
+//@ assert (*enumerator).updateMatches#1 : $skipEmptyKey && $m == m [C06,C08,C13]
+//@ loop 1 early err != nil && err != vellum.ErrIteratorDone [C06,C08,C13]
+//@ ensures old(m.lowCurr) + 1 < old(len(m.lowIdxs)) && old(m.lowCurr) >= 0 ==> err == nil && m.lowCurr == old(m.lowCurr) + 1 && len(m.lowIdxs) == old(len(m.lowIdxs)) [C06,C08,C13]
+//@ end
+
+// the current result: the low key, the index of the input it is read from at this step, and that input's value
+//@ func (*enumerator).Current returns (k, idx, v)
+//@ thin
+//@ tags [C06,C08,C13]
+//@ wf requires m != nil
+//@ ensures 0 <= m.lowCurr && m.lowCurr < len(m.lowIdxs) && 0 <= m.lowIdxs[m.lowCurr] && m.lowIdxs[m.lowCurr] < len(m.currVs) ==> idx == m.lowIdxs[m.lowCurr] && v == m.currVs[idx] && base(k) == base(m.lowK) && len(k) == len(m.lowK) [C06,C08,C13]
+//@ end
+
+// all inputs standing at the low key, each with its own current value (position k of the values belongs to lowIdxs[k])
+//@ func (*enumerator).GetLowIdxsAndValues returns (idxs, values)
+//@ thin
+//@ tags [C06,C08,C09]
+//@ wf requires m != nil
+//@ loop 1 step prev(len(values)) <= 0x3fffffffffffff && 0 <= idx && idx < len(m.currVs) ==> len(values) == prev(len(values)) + 1 && values[prev(len(values))] == prev(m.currVs[idx]) [C06,C08,C09]
+//@ loop 1 invariant 0 <= $k && $k <= len(m.lowIdxs) && len(values) == $k && base(m.lowIdxs) == old(base(m.lowIdxs)) && off(m.lowIdxs) == old(off(m.lowIdxs)) && len(m.lowIdxs) == old(len(m.lowIdxs)) [C06,C08,C09]
+//@ ensures base(idxs) == old(base(m.lowIdxs)) && off(idxs) == old(off(m.lowIdxs)) && len(idxs) == old(len(m.lowIdxs)) && len(values) == len(idxs) [C06,C08,C09]
+//@ end
+
 // the first step of an enumeration skips nothing (an input whose first key is the empty key is live)
 //@ func newEnumerator returns (e, err)
 //@ thin
@@ -1474,6 +1516,37 @@ func lemmaUvLenRange(a []byte, o int) {}
 //@ propagates err from (*roaring/v2.Bitmap).ToBytes, io.Writer.Write [C17]
 //@ end
 
+// field ids: a known name gets its id back and nothing changes; a new name gets the next id and one more entry in each
+// per-field table
+//@ func (*invertedIndexOpaque).getOrDefineField returns (id)
+//@ thin
+//@ tags [C01,C10]
+//@ wf requires i != nil
+//@ ensures old(haskey(i.FieldsMap, fieldName)) ==> id == int(uint16(old(mapget(i.FieldsMap, fieldName)) - 1)) && len(i.FieldsInv) == old(len(i.FieldsInv)) && len(i.Dicts) == old(len(i.Dicts)) && len(i.DictKeys) == old(len(i.DictKeys)) [C01]
+//@ ensures !old(haskey(i.FieldsMap, fieldName)) && old(len(i.FieldsInv)) < 65534 ==> id == old(len(i.FieldsInv)) && len(i.FieldsInv) == old(len(i.FieldsInv)) + 1 && len(i.Dicts) == old(len(i.Dicts)) + 1 && len(i.DictKeys) == old(len(i.DictKeys)) + 1 && haskey(i.FieldsMap, fieldName) && int(mapget(i.FieldsMap, fieldName)) == id + 1 [C01]
+//@ ensures !old(haskey(i.FieldsMap, fieldName)) && old(len(i.FieldsInv)) < 65534 && old(len(i.DictKeys)) == old(len(i.FieldsInv)) ==> len(i.DictKeys[id]) == 0 [C01,C10]
+//@ end
+
+//@ func (*interim).getOrDefineField returns (id)
+//@ thin
+//@ tags [C01,C02]
+//@ wf requires s != nil
+//@ ensures old(haskey(s.FieldsMap, fieldName)) ==> id == int(uint16(old(mapget(s.FieldsMap, fieldName)) - 1)) && len(s.FieldsInv) == old(len(s.FieldsInv)) [C01,C02]
+//@ ensures !old(haskey(s.FieldsMap, fieldName)) && old(len(s.FieldsInv)) < 65534 ==> id == old(len(s.FieldsInv)) && len(s.FieldsInv) == old(len(s.FieldsInv)) + 1 && haskey(s.FieldsMap, fieldName) && int(mapget(s.FieldsMap, fieldName)) == id + 1 [C01,C02]
+//@ end
+
+// a thesaurus is defined once per name: a new name gets the next id, one fresh table of each kind, an emptied key list,
+// and the field-to-thesaurus entry of the field that introduced it; a known name gets its id back and changes nothing
+//@ func (*synonymIndexOpaque).getOrDefineThesaurus returns (tid)
+//@ thin
+//@ tags [C10,C12]
+//@ wf requires so != nil
+//@ ensures old(haskey(so.ThesaurusMap, thesaurusName)) ==> tid == int(uint16(old(mapget(so.ThesaurusMap, thesaurusName)) - 1)) && len(so.ThesaurusInv) == old(len(so.ThesaurusInv)) && len(so.Thesauri) == old(len(so.Thesauri)) [C12]
+//@ ensures !old(haskey(so.ThesaurusMap, thesaurusName)) && old(len(so.ThesaurusInv)) < 65534 ==> tid == old(len(so.ThesaurusInv)) && len(so.ThesaurusInv) == old(len(so.ThesaurusInv)) + 1 && len(so.Thesauri) == old(len(so.Thesauri)) + 1 && len(so.SynonymIDtoTerm) == old(len(so.SynonymIDtoTerm)) + 1 && len(so.SynonymTermToID) == old(len(so.SynonymTermToID)) + 1 && len(so.ThesaurusKeys) == old(len(so.ThesaurusKeys)) + 1 [C12]
+//@ ensures !old(haskey(so.ThesaurusMap, thesaurusName)) && old(len(so.ThesaurusInv)) < 65534 ==> haskey(so.FieldIDtoThesaurusID, fieldID) && mapget(so.FieldIDtoThesaurusID, fieldID) == tid [C10,C12]
+//@ ensures !old(haskey(so.ThesaurusMap, thesaurusName)) && old(len(so.ThesaurusInv)) < 65534 && old(len(so.ThesaurusKeys)) == old(len(so.ThesaurusInv)) ==> len(so.ThesaurusKeys[tid]) == 0 [C10,C12]
+//@ end
+
 // counting pass of the synonym builder: every synonym of every definition has an id in its thesaurus when the pass
 // is over (the fill pass looks ids up in the same table and a missing one would silently read as id 0)
 //@ func (*synonymIndexOpaque).realloc$2$1
@@ -1503,6 +1576,9 @@ func lemmaUvLenRange(a []byte, o int) {}
 //@ assert encoding/binary.PutUvarint#3 : $x == fieldNotUninverted [C09,C12]
 //@ assert encoding/binary.PutUvarint#4 : $x == thesOffsets[thesaurusID] [C09,C12]
 //@ assert writeSynTermMap#1 : $synTermMap == so.SynonymIDtoTerm[thesaurusID] [C09,C12]
+// a term enters the FST only with the (non-zero) offset of a synonyms block that was written for it: offset 0 would
+// read as "the block at the start of the file"
+//@ assert (*vellum.Builder).Insert#1 : $val == postingsOffset && postingsOffset > 0 [C09,C12]
 //@ propagates err from writeSynonyms, writeSynTermMap, (*CountHashWriter).Write, (*vellum.Builder).Insert, (*vellum.Builder).Close [C17]
 //@ end
 
@@ -1785,6 +1861,16 @@ func lemmaSynonymCodeRoundTrip(synonymID, docID uint32) {
 //@ end
 
 // ---- C01: the builder's counting pass (realloc) and its fill pass (process) agree on what a token contributes ----
+// after counting, the two backing arrays are sized by the two totals and carved into consecutive windows, one per
+// postings list, as wide as that list's count (each window starts empty where the previous one's share ends)
+//@ func (*invertedIndexOpaque).realloc
+//@ thin
+//@ tags [C01]
+//@ loop 5 step 0 <= numTerms && numTerms <= prev(len(freqNormsBacking)) && 0 <= pid && pid < len(i.FreqNorms) ==> base(i.FreqNorms[pid]) == prev(base(freqNormsBacking)) && off(i.FreqNorms[pid]) == prev(off(freqNormsBacking)) && len(i.FreqNorms[pid]) == 0 && base(freqNormsBacking) == prev(base(freqNormsBacking)) && off(freqNormsBacking) == prev(off(freqNormsBacking)) + numTerms [C01]
+//@ loop 6 step 0 <= numLocs && numLocs <= prev(len(locsBacking)) && 0 <= pid && pid < len(i.Locs) ==> base(i.Locs[pid]) == prev(base(locsBacking)) && off(i.Locs[pid]) == prev(off(locsBacking)) && len(i.Locs[pid]) == 0 && base(locsBacking) == prev(base(locsBacking)) && off(locsBacking) == prev(off(locsBacking)) + numLocs [C01]
+//@ local ensures len(i.FreqNorms) == len(i.Postings) && len(i.Locs) == len(i.Postings) && len(i.freqNormsBacking) == totTFs && len(i.locsBacking) == totLocs [C01]
+//@ end
+
 // counting pass, per token of a field: one freq/norm entry and len(tf.Locations) location entries for the token's
 // postings list, and the same amounts towards the two backing arrays
 //@ func (*invertedIndexOpaque).realloc$3
@@ -1802,12 +1888,33 @@ func lemmaSynonymCodeRoundTrip(synonymID, docID uint32) {
 //@ thin
 //@ tags [C01]
 //@ loop 3 invariant 0 <= $k && $k <= len(tf.Locations) && len(locs) == entry(len(locs)) + $k [C01]
+// end of a document: the per-field scratch (accumulated lengths, merged token tables) is cleared for every field, whether
+// or not the document had tokens for it - what is left would be added to the next document's (or the next build's) norm
+//@ loop 4 invariant 0 <= i && (forall j int :: {io.reusableFieldLens[j]} 0 <= j && j < i && j < len(io.reusableFieldLens) && j < len(io.reusableFieldTFs) ==> io.reusableFieldLens[j] == 0 && io.reusableFieldTFs[j] == nil) [C01,C10]
+//@ ensures fieldID == 0xffff && len(io.reusableFieldLens) >= len(io.FieldsInv) && len(io.reusableFieldTFs) >= len(io.FieldsInv) ==> (forall j int :: {io.reusableFieldLens[j]} 0 <= j && j < len(io.FieldsInv) ==> io.reusableFieldLens[j] == 0 && io.reusableFieldTFs[j] == nil) [C01,C10]
 // the document is added to the postings of the token's own term in the field's own dictionary, and the entry records
 // the token's frequency
 //@ assert (*roaring/v2.Bitmap).Add#1 : int($x) == int(docNum) && pid == uint64(mapget(dict, term) - 1) && (0 <= int(pid) && int(pid) < len(io.Postings) ==> $rb == io.Postings[int(pid)]) [C01]
 //@ loop 2 step 0 <= int(pid) && int(pid) < prev(len(io.FreqNorms)) && prev(len(io.FreqNorms[int(pid)])) <= 0x3fffffffffffff ==> io.FreqNorms[int(pid)][prev(len(io.FreqNorms[int(pid)]))].freq == uint64(tfFreqOf(tf)) [C01]
 //@ loop 2 step 0 <= int(pid) && int(pid) < prev(len(io.FreqNorms)) && prev(len(io.FreqNorms[int(pid)])) <= 0x3fffffffffffff ==> len(io.FreqNorms[int(pid)]) == prev(len(io.FreqNorms[int(pid)])) + 1 && io.FreqNorms[int(pid)][prev(len(io.FreqNorms[int(pid)]))].numLocs == len(tf.Locations) [C01]
 //@ loop 2 step 0 <= int(pid) && int(pid) < prev(len(io.Locs)) && prev(len(io.Locs[int(pid)])) <= 0x3fffffffffffff && len(tf.Locations) > 0 ==> len(io.Locs[int(pid)]) == prev(len(io.Locs[int(pid)])) + len(tf.Locations) [C01]
+//@ end
+
+// a build, step by step: "_id" is field 0; the remaining field names are sorted; the name table maps every name to its
+// position + 1; documents are processed, stored data written, every section persisted into the build's writer with the
+// build's opaques, and the fields section written over the same names, writer and opaques
+//@ func section.Persist(this, opaque, w) returns (n, err)
+//@ trusted
+//@ modifies *
+//@ end
+//@ func (*interim).convert returns (storedIndexOffset, sectionsIndexOffset, err)
+//@ thin
+//@ tags [C01,C02,C04,C09]
+//@ assert sort.Strings#1 : base($x) == base(s.FieldsInv) && off($x) == off(s.FieldsInv) + 1 && len($x) == len(s.FieldsInv) - 1 [C01,C02,C09]
+//@ loop 2 step 0 <= fieldID && fieldID < 65535 ==> haskey(s.FieldsMap, fieldName) && int(mapget(s.FieldsMap, fieldName)) == fieldID + 1 [C01,C02,C09]
+//@ assert section.Persist#1 : $opaque == s.opaque && $w == s.w [C01,C04,C09]
+//@ assert persistFieldsSection#1 : $fieldsInv == s.FieldsInv && $w == s.w && $opaque == s.opaque [C01,C04,C09]
+//@ propagates err from (*interim).writeStoredFields, section.Persist, persistFieldsSection [C17]
 //@ end
 
 // the document walk of a build: document k of the batch is processed as document number k; every field of it is handed
